@@ -64,6 +64,8 @@ def c01(tier, seed):
     SL.child_curr(run); SL.propagation(run); SL.solve_slice(run, "C01"); SL.graph_helpers(run, "C01"); SL.parents_childs(run, "C01")
     table_layer(run, "solve-table-oracle", ["C01"], seed, _n(tier, 500, 20000))
     table_layer(run, "solve-table-oracle/tables+polarity", ["C01"], seed + 1, _n(tier, 300, 10000), dict(p_table=0.8, p_neg=0.5, p_phases=0.2))
+    from bounded import families as BF_
+    run.add_bounded("tabulated parameters of every table-taking kind evaluate as tabulated (grid, lines, cells)", BF_.interp_family(seed, _n(tier, 200, 6000)))
     from bounded import hist
     run.add_bounded("solve table after edit histories (solve, edit, solve)", hist.random_history_family(seed, _n(tier, 200, 4000), _n(tier, 6, 10), ["C01", "C16"]))
     run.notes.append("composition (paper argument, not machine-checked): per-node laws + call-site obligations + _solve contract give the row-level statement within K*(vtol+itol)")
@@ -219,6 +221,8 @@ def c16(tier, seed):
     from bounded import families as BF
     run.add_bounded("construction orders of the same structure", BF.order_family(seed, _n(tier, 60, 2000), ["C16"]))
     run.add_bounded("solve, re-configure phases, solve vs fresh system", BF.reconfig_family(seed, _n(tier, 250, 6000), ["C16"]))
+    from bounded import diagrams as DG
+    run.add_bounded("diagrams of built and edited systems show exactly the final structure", DG.diagram_family(seed, _n(tier, 60, 1500)))
     run.notes.append("whole-history equivalence of two System objects is not a per-function contract: decided bounded (edited vs rebuilt from an independent reference model)")
     _alias(run, 'C16', seed, tier)
     return run.finish()
